@@ -75,7 +75,9 @@ def gen_tree(rng, depth_above=None, small=False):
         if rng.chance(1, 2): t.file(pre + b'index.html', marker(pre + b'index.html'))
         # every file name the server itself goes looking for (its own pages, the not-found page, its configuration), marked, at
         # every level above the root: a lookup that walks up, or resolves its own file against the wrong directory, serves one
-        for own in (b'404.html', b'style.css', b'script.js', b'favicon.svg', b'rws.config.toml', b'index.htm'):
+        from vlib import vocab as V
+        for own in sorted({b'404.html', b'style.css', b'script.js', b'favicon.svg', b'rws.config.toml', b'index.htm'} | {f.lstrip('/').encode() for f in V.literals()['file'][:40]}):
+            if own in (b'index.html', b'secret.txt'): continue
             t.file(pre + own, marker(pre + own) + b' ' + own)
     root = t.cwd + b'/'
     sizes = [0, 1, 2, 3, 10, 100] if small else [0, 1, 2, 5, 10, 255, 256, 1000, 8191, 8192, 8193, 9999, 10000, 10001]
